@@ -304,6 +304,7 @@ func runC09(t *testing.T, c *choice.Stream, r *Result, opt RunOpt) {
 		}
 		script = append(script, simnet.Step{Label: "schema", Send: (&SPacket{Kind: "data", Block: hdr}).Encode(cf)})
 		busy := c.Bool("progress", 1, 2)
+		chatty := c.Bool("logs", 1, 3)
 		e.Sim.DrawStrategy()
 		e.Sim.StallProb = 0
 		e.Sim.MaxSteps = 400000
@@ -321,6 +322,12 @@ func runC09(t *testing.T, c *choice.Stream, r *Result, opt RunOpt) {
 			}
 			if busy {
 				cn.Enqueue((&SPacket{Kind: "progress", Prog: refproto.Progress{WroteRows: uint64(p.Block.Rows), WroteBytes: 10}}).Encode(cf))
+			}
+			if chatty && cf.Negotiated() >= refproto.RevServerLogs {
+				// ... and tells about each block in two lines of its log
+				cn.Enqueue((&SPacket{Kind: "log", Logs: []LogRow{
+					{Time: 1700000000, Micro: 1, Host: "h", QueryID: "q", Thread: 1, Priority: 6, Source: "ins", Text: "block received"},
+					{Time: 1700000000, Micro: 2, Host: "h", QueryID: "q", Thread: 1, Priority: 7, Source: "ins", Text: "block written"}}}).Encode(cf))
 			}
 		}
 		conn := e.W.NewConn(srv)
